@@ -519,8 +519,9 @@ def main():
     if harness_ok and have_model:
         shards = getattr(prop, 'SHARDS', NCPU)
         ulimit = 'ulimit -s unlimited 2>/dev/null; exec %s' % model_bin
-        model_out = run_sharded(['sh', '-c', ulimit], lines, shards, timeout=3000)
-        impl_out = run_sharded(hbin_path, lines, shards, timeout=3000,
+        run_to = 600 if tier == 'quick' else 3000      # a hang on either side shows up as output `4`, i.e. a disagreement
+        model_out = run_sharded(['sh', '-c', ulimit], lines, shards, timeout=run_to)
+        impl_out = run_sharded(hbin_path, lines, shards, timeout=run_to,
                                env=getattr(prop, 'HARNESS_ENV', None))
         for k, c in enumerate(cases):
             io, mo = impl_out[k], model_out[k]
